@@ -451,7 +451,7 @@ package commitlog
 //@   ghost at loop 1: ghost.wrote := false
 //@   ghost after call WriteMessageSet: ghost.wrote := ret0 == nil
 //@   loop 1 backedge requires [survivor-kept] (isnil(key) || offset == latestOffset || offset >= hw) ==> ghost.wrote
-//@   call entriesForMessageSet requires [indexed-as-written] arg1 == ms
+//@   call entriesForMessageSet requires [indexed-as-written] arg1 == ms && arg0 == cleaned.position
 //@   call WriteMessageSet requires [written-unchanged] arg0 == cleaned && arg1 == ms && arg2 == entries
 //@   call (*leaderEpochCache).Assign requires [epoch-of-survivor] arg1 == leaderEpoch && arg2 == offset
 //@   call (*segment).Replace requires [replaces-source] arg0 == cleaned && arg1 == seg
